@@ -1,0 +1,54 @@
+import functools
+import inspect
+import numbers
+from typing import Sequence
+
+import numpy as np
+
+__all__ = ["validated"]
+
+
+def validated(
+    exactly_two: Sequence[str] = (),
+    at_most_one: Sequence[str] = (),
+    signed: Sequence[str] = ("pad_angle",),
+):
+    """
+    Decorator checking the numeric arguments of a groove solver or constructor before it runs.
+    Every given number must be finite and, as a measure, non-negative.
+
+    :param exactly_two: names of mutually dependent parameters of which exactly two must be given (not ``None``)
+    :param at_most_one: names of alternative parameters of which at most one may be given (not ``None``)
+    :param signed: names of parameters that may be negative
+    """
+
+    def decorator(func):
+        signature = inspect.signature(func)
+
+        @functools.wraps(func)
+        def wrapper(*args, **kwargs):
+            given = {
+                name: value
+                for name, value in signature.bind(*args, **kwargs).arguments.items()
+                if value is not None
+            }
+
+            for name, value in given.items():
+                if not isinstance(value, numbers.Real):
+                    continue
+                if not np.isfinite(value):
+                    raise ValueError(f"Groove argument {name} has to be a finite number.")
+                if value < 0 and name not in signed:
+                    raise ValueError(f"Groove argument {name} has to be non-negative.")
+
+            if exactly_two and sum(name in given for name in exactly_two) != 2:
+                raise TypeError(f"Exactly two of {', '.join(exactly_two)} must be given.")
+
+            if sum(name in given for name in at_most_one) > 1:
+                raise TypeError(f"At most one of {', '.join(at_most_one)} may be given.")
+
+            return func(*args, **kwargs)
+
+        return wrapper
+
+    return decorator
